@@ -56,6 +56,8 @@ type Case struct {
 	Twice     bool              `json:"twice,omitempty"` // load twice in this process and compare dumps
 	Any       bool              `json:"any,omitempty"`   // wrap the opener in source.Any (missing becomes an error)
 	WantOrder bool              `json:"want_order,omitempty"`
+	Features  string            `json:"features,omitempty"`   // "" (all on), "off:a,b" or "on:a,b": parser.Options.Features
+	ViaString bool              `json:"via_string,omitempty"` // load the main module's text (Files[MainName]) with LoadModuleFromString instead of by name
 }
 
 type Outcome struct {
@@ -279,10 +281,25 @@ func Run(c *Case) (out Outcome) {
 			}
 			zzverifrt.ResetSteps(0)
 		}()
-		if c.MainName != "" {
-			m, err = parser.LoadModule(opener, c.MainName)
-		} else {
-			m, err = parser.LoadModuleFromString(opener, c.Main)
+		var opts parser.Options
+		if c.Features != "" {
+			var names []string
+			if rest := c.Features[strings.Index(c.Features, ":")+1:]; rest != "" {
+				names = strings.Split(rest, ",")
+			}
+			if strings.HasPrefix(c.Features, "on:") {
+				opts.Features = meta.FeaturesOn(names)
+			} else {
+				opts.Features = meta.FeaturesOff(names)
+			}
+		}
+		switch {
+		case c.MainName != "" && c.ViaString:
+			m, err = parser.LoadModuleFromStringWithOptions(opener, c.Files[c.MainName], opts)
+		case c.MainName != "":
+			m, err = parser.LoadModuleWithOptions(opener, c.MainName, opts)
+		default:
+			m, err = parser.LoadModuleFromStringWithOptions(opener, c.Main, opts)
 		}
 		return
 	}
